@@ -235,3 +235,33 @@ func init() {
 	addMutant(Mutant{Prop: "C19", Name: "pycallee-from-name-cache", File: "cl/instr.go",
 		Old: "\t\t\tpyFn = pkg.PyNewFunc(fnName, fn.Signature, true)\n\t\t\treturn", New: "\t\t\tif pyFn = pkg.PyObjOf(fnName); pyFn == nil {\n\t\t\t\tpyFn = pkg.PyNewFunc(fnName, fn.Signature, true)\n\t\t\t}\n\t\t\treturn", Expect: "R19.5 cl.context.funcOf"})
 }
+
+// checkAfterInitAnchor (R19.9): the code that binds a package's Python symbols is inserted after the init calls
+// of the imported packages.  Those calls follow the store that sets <pkg>.init$guard; other code (the tables of
+// embed.FS variables) may be emitted in front of that store, so the insertion point must be located from the
+// guard store, not from the first instruction of the block.
+func checkAfterInitAnchor(c *Ctx, sp *packages.Package) {
+	fd := findFunc(sp, "instrAfterInit")
+	if fd == nil {
+		c.Undecided("R19.7", "ssa.instrAfterInit anchors on the init guard", 0, "function not found")
+		return
+	}
+	c.nfuncs++
+	src := srcOf(fd.Body)
+	// the callee that recognises the guard may be a helper of the same package
+	anchored := strings.Contains(src, "init$guard")
+	for _, call := range callsIn(fd.Body) {
+		if f := calleeOf(sp.TypesInfo, call); f != nil && f.Pkg() == sp.Types {
+			if hd := findFunc(sp, f.Name()); hd != nil && strings.Contains(srcOf(hd.Body), "init$guard") {
+				anchored = true
+			}
+		}
+	}
+	c.Check(anchored, "R19.7", "ssa.instrAfterInit anchors on the init guard", fd.Pos(), "scan starts at the store to <pkg>.init$guard",
+		"the scan assumes the block's first instruction is the guard store: when embed.FS tables are emitted in front of it the binding code lands before the imported packages' init calls, so Python symbols are looked up in a module that is not imported yet (NULL)")
+}
+
+func init() {
+	addMutant(Mutant{Prop: "C19", Name: "afterinit-assumes-first-instruction", File: "ssa/stmt_builder.go",
+		Old: "\tinstr := guardStore(blk)\n", New: "\tinstr := blk.FirstInstruction()\n", Expect: "R19.7 ssa.instrAfterInit anchors"})
+}
